@@ -13,6 +13,30 @@ import sys
 from vf import env as _env
 
 
+def call(module, function, arg, env_extra, prefix, no_tf=True, timeout=1800):
+  """Runs module.function(arg) in a child interpreter with extra environment
+  variables; returns its JSON result.  A result carrying 'clause' is re-raised
+  as a Violation `<prefix>:<clause>`; a child that dies is reported as
+  `<prefix>:child_process_failed` (an exception inside the tree under test, or
+  a harness problem -- the message carries the end of its stderr)."""
+  import subprocess
+  from vf.core import Violation
+  env = _env.worker_env()
+  env.update(env_extra)
+  cmd = [sys.executable, '-m', 'vf.child', module, function, json.dumps(arg)]
+  if no_tf:
+    cmd.append('--no-tf')
+  p = subprocess.run(cmd, env=env, cwd=_env.VERIF_DIR, capture_output=True, text=True,
+                     timeout=timeout)
+  line = [l for l in p.stdout.splitlines() if l.startswith('@@CHILD@@')]
+  if p.returncode != 0 or not line:
+    raise Violation(prefix + ':child_process_failed', p.stderr[-1500:])
+  res = json.loads(line[0][9:])
+  if isinstance(res, dict) and 'clause' in res:
+    raise Violation(prefix + ':' + res['clause'], res.get('message', ''))
+  return res
+
+
 def main():
   mod_name, fn_name, arg = sys.argv[1], sys.argv[2], sys.argv[3]
   _env.activate()
